@@ -118,6 +118,19 @@ def mk_bool(op, items):
     return (op, tuple(res))
 
 
+def _boolean(t):
+    """the term can only be True or False"""
+    if t in (TRUE, FALSE):
+        return True
+    if t[0] in ('cmp', 'not'):
+        return True
+    if t[0] in ('and', 'or'):
+        return all(_boolean(x) for x in t[1])
+    if t[0] == 'cond':
+        return _boolean(t[2]) and _boolean(t[3])
+    return False
+
+
 def mk_cond(c, a, b):
     if is_const(c):
         return a if cval(c) else b
@@ -129,6 +142,16 @@ def mk_cond(c, a, b):
         return c
     if a == FALSE and b == TRUE:
         return mk_not(c)
+    # a gate with a truth value on one side and a test on the other is the conjunction / disjunction it spells out
+    if a == FALSE and _boolean(b):
+        return mk_bool('and', (mk_not(c), b))
+    if b == TRUE and _boolean(a):
+        return mk_bool('or', (mk_not(c), a))
+    if _boolean(c):
+        if b == FALSE and _boolean(a):
+            return mk_bool('and', (c, a))
+        if a == TRUE and _boolean(b):
+            return mk_bool('or', (c, b))
     # nested gates on the same test collapse
     if a[0] == 'cond' and a[1] == c:
         a = a[2]
